@@ -119,13 +119,18 @@ def parse_mir(path, span_path=None):
         i = -1
         want = False
         for line in open(span_path):
+            # an item counts here exactly when the first pass appended a Fn for it (same header tests), so that the
+            # two dumps stay aligned whatever other items (statics of thread_local!, fn-typed consts) appear
             if line.startswith('fn '):
-                i += 1
-                want = True
+                if re.match(r'fn (.*?)\((.*)\) -> (.*) \{$', line.rstrip('\n')):
+                    i += 1
+                    want = True
                 continue
-            if (line.startswith('const ') or line.startswith('static ')) and line.rstrip().endswith('= {'):
-                i += 1
-                want = False
+            if line.startswith('const ') or line.startswith('static '):
+                ln = line.rstrip('\n')
+                if re.match(r'^const (.*::promoted\[\d+\]): (.*) = \{$', ln) or re.match(r'^(?:const|static) ([\w:<>]+): (.*) = \{$', ln):
+                    i += 1
+                    want = False
                 # promoted consts belong to the file of their function; resolved below
                 continue
             if want:
